@@ -715,6 +715,11 @@ def run(ctx):
     rule_d1(ctx, checks, d2_argument)
     rule_d3(ctx)
     rule_d4(ctx)
+    # the end of the data stream is what the transport reported: an error or a time-out is never turned into an empty read
+    # (rule shared with C08)
+    from . import c08 as _c08
+    from .common import RemapCtx as _RC
+    _c08.d6_eof_is_real(_RC(ctx, {'C08-D6': 'C17-D4'}))
     rule_d5(ctx)
 
 
